@@ -8,6 +8,8 @@ def run(ctx):
 
 
 def replay(data):
+    if lexeme.is_token_record(data):
+        return lexeme.replay_token("C07", data)
     if lexeme.is_encoder_record(data):
         return lexeme.replay_encoder("C07", data)
     return drv.replay(data)
